@@ -211,12 +211,17 @@ func (s *Sim) evmScenario(hs *EvmStats) error {
 		}
 		ntx := 1 + r.Intn(4)
 		refPool := new(ethcore.GasPool).AddGas(25_000_000) // the EVM gas pool of the block, as the reference keeps it
+		hugeAgain := false                                 // the previous call carried a huge gas limit: one more follows in the same block
 		for i := 0; i < ntx; i++ {
 			from := s.pick(s.users)
 			var spec *TxSpec
 			var name string
 			wholeBalance := false
 			k := r.Intn(100)
+			forceHuge := false
+			if hugeAgain && len(contracts) > 0 {
+				k, forceHuge, hugeAgain = 50, true, false
+			}
 			switch {
 			case k < 30 || len(contracts) == 0: // deployment
 				progs := []struct {
@@ -275,10 +280,19 @@ func (s *Sim) evmScenario(hs *EvmStats) error {
 			if r.Intn(12) == 0 {
 				spec.Gas = uint64(21000 + r.Intn(40000)) // often runs out of gas
 			}
-			if isCall := len(name) > 5 && name[:5] == "call:"; isCall && r.Intn(10) == 0 {
+			if isCall := len(name) > 5 && name[:5] == "call:"; isCall && (forceHuge || r.Intn(10) == 0) {
 				// a gas limit of the order of the block's pool: the second such call of a block does not fit
-				spec.Gas = uint64(12000000 + r.Intn(13000001))
+				spec.Gas = uint64(13000000 + r.Intn(12000001))
+				if forceHuge { // the whole pool: whatever the first call used is missing now
+					spec.Gas = 25000000
+				}
 				name += ":huge-gas-limit"
+				if !forceHuge {
+					hugeAgain = true
+					if i == ntx-1 {
+						ntx++
+					}
+				}
 			}
 			if spec.Type == 1 && len(name) > 12 && name[:12] == "transfer-to:" && r.Intn(4) == 0 {
 				// admitted by the node (at least the governance minimum) but below the EVM's intrinsic gas:
